@@ -18,6 +18,19 @@ func init() {
 }
 
 func c15(c *Ctx) {
+	{
+		p := c.P
+		ap := "litefs.(*DB).ApplyLTXNoLock"
+		c.Guarded("apply/tombstone-no-shm-rewrite", ap, p.PlainCalls("litefs.(*DB).updateSHM"), gs(G(`\(0 < ltx\.\(\*Decoder\)\.Header\(.*\)\.Commit\)`, true)), 1, "applying a transaction rewrites the SHM header only when the database still has pages", "updateSHM creates the file: after a drop the replica would keep an shm file for a database that no longer exists")
+		// the database file is removed after the journal, WAL and SHM files (a journal or WAL without its database cannot be recovered)
+		for _, f := range []struct{ fn, tag string }{{"litefs.(*DB).Drop", "DROP"}, {ap, "APPLYLTX:DROP"}} {
+			short := f.fn[len("litefs.(*DB)."):]
+			rm := func(kind string) IM { return p.CallWhere("litefs.OS.Remove", `"`+f.tag+`:`+kind+`"`) }
+			for _, k := range []string{"JOURNAL", "WAL", "SHM"} {
+				c.Before("tombstone/database-file-last/"+short+"/"+k, f.fn, rm("DB"), rm(k), 1, short+": the database file is removed only after the "+k+" file", "a crash between the two leaves a journal or WAL without its database: the next start fails in recovery although the drop is committed")
+			}
+		}
+	}
 	c.OnlyGuards("restart/every-directory-opened", "litefs.(*Store).openDatabases", c.P.PlainCalls("litefs.(*Store).openDatabase"), gs(
 		GP("(litefs.OS.MkdirAll(p0.OS, \"OPENDATABASES\", litefs.(*Store).DBDir(p0), 511) == nil)", true),
 		GP("(litefs.OS.ReadDir(p0.OS, \"OPENDATABASES\", litefs.(*Store).DBDir(p0))#1 == nil)", true),
